@@ -33,6 +33,8 @@ CONSTANTS
     Classes,      \* error classes the classifiers may return in this model
     Outs,         \* attempt outcomes offered by the environment
     Durs,         \* attempt durations (ticks)
+    CDurs,        \* time spent inside a classifier call (ticks)
+    EDurs,        \* time spent inside the metric/log hooks while a `retry` event is reported
     Rets,         \* strategy return values: records [kind, v]
     Advs,         \* sleeper behaviours: "exact", "over1", "over4", "none" and the faults
                   \* "kbd", "sysexit", "cancel" (sleeper raises a cancellation-type exception)
@@ -93,16 +95,18 @@ SNewRun(c, s, gap) == [SInit(c) EXCEPT !.run = s.run + 1, !.bq = s.bq, !.mode = 
 EvPoll(pos, ans, t)   == [e |-> "poll", ans |-> ans, t |-> t]   \* pos: documentation only
 EvInvoke(n, t, out, k, ra, dur) ==
     [e |-> "invoke", n |-> n, t |-> t, out |-> out, k |-> k, ra |-> ra, dur |-> dur, t1 |-> t + dur]
-EvRClassify(n, k, ra, t) == [e |-> "rclassify", n |-> n, k |-> k, ra |-> ra, t |-> t]
-EvClassify(n, k, ra, t) == [e |-> "classify", n |-> n, k |-> k, ra |-> ra, t |-> t]
+EvRClassify(n, k, ra, dur, t) == [e |-> "rclassify", n |-> n, k |-> k, ra |-> ra, dur |-> dur, t |-> t]
+EvClassify(n, k, ra, dur, t) == [e |-> "classify", n |-> n, k |-> k, ra |-> ra, dur |-> dur, t |-> t]
 EvStrategy(which, n, k, ra, prev, rem, cause, ret, t) ==
     [e |-> "strategy", which |-> which, n |-> n, k |-> k, ra |-> ra, prev |-> prev,
      rem |-> rem, cause |-> cause, ret |-> ret, t |-> t]
 EvSRec(which, what, k, t) == [e |-> "srec", which |-> which, what |-> what, k |-> k, t |-> t]
 EvConsume(ok, t, at)  == [e |-> "consume", ok |-> ok, t |-> t, at |-> at]   \* at: absolute time
-EvEmit(name, n, sleep, k, err, stop, cause, ra, op, t) ==
+EvEmitD(name, n, sleep, k, err, stop, cause, ra, op, dur, t) ==
     [e |-> "emit", name |-> name, n |-> n, sleep |-> sleep, k |-> k, err |-> err,
-     stop |-> stop, cause |-> cause, ra |-> ra, op |-> op, t |-> t]
+     stop |-> stop, cause |-> cause, ra |-> ra, op |-> op, dur |-> dur, t |-> t]
+EvEmit(name, n, sleep, k, err, stop, cause, ra, op, t) ==
+    EvEmitD(name, n, sleep, k, err, stop, cause, ra, op, 0, t)
 EvHandler(n, sleep, dec, t) == [e |-> "handler", n |-> n, sleep |-> sleep, dec |-> dec, t |-> t]
 EvBSleep(sleep, f, t) == [e |-> "bsleep", sleep |-> sleep, fault |-> f, t |-> t]
 \* us: the requested sleep in microseconds (1 tick = 15625 us), so that a delay which is
@@ -217,10 +221,10 @@ Invoke(c, s) ==
 
 RClassify(c, s) ==
     IF s.pc = "rcl_ok" THEN
-        { <<EvRClassify(s.att, "none", None, s.now), [s EXCEPT !.pc = "succ"]>> }
+        { <<EvRClassify(s.att, "none", None, d, s.now), [s EXCEPT !.pc = "succ", !.now = @ + d]>> : d \in CDurs }
     ELSE IF s.pc = "rcl_res" THEN
-        { <<EvRClassify(s.att, s.ck, s.cra, s.now),
-            [s EXCEPT !.pc = IF c.abort THEN "pollfail" ELSE "handle"]>> }
+        { <<EvRClassify(s.att, s.ck, s.cra, d, s.now),
+            [s EXCEPT !.pc = IF c.abort THEN "pollfail" ELSE "handle", !.now = @ + d]>> : d \in CDurs }
     ELSE {}
 
 \* emit_success: state.record_success() tells the last used strategy, then the event
@@ -247,7 +251,7 @@ PollFail(c, s) ==
 
 Classify(c, s) ==
     IF s.pc = "classify" THEN
-        { <<EvClassify(s.cobj, s.ck, s.cra, s.now), [s EXCEPT !.pc = "handle"]>> }
+        { <<EvClassify(s.cobj, s.ck, s.cra, d, s.now), [s EXCEPT !.pc = "handle", !.now = @ + d]>> : d \in CDurs }
     ELSE {}
 
 \* the first five ordered stop checks of _handle_failure (before a strategy is selected)
@@ -316,11 +320,11 @@ BudgetStop(c, s) ==
 
 RetryEmit(c, s) ==
     IF s.pc = "retryemit" THEN
-        { <<EvEmit("retry", s.att, s.sl, s.lk, Err(s.lcause), "-", s.lcause, s.lra, c.opname, s.now),
-            [s EXCEPT !.prev = s.sl,
+        { <<EvEmitD("retry", s.att, s.sl, s.lk, Err(s.lcause), "-", s.lcause, s.lra, c.opname, d, s.now),
+            [s EXCEPT !.prev = s.sl, !.now = @ + d,
                       !.pc = IF c.abort THEN "pollretry"
                              ELSE IF c.handler THEN "handler"
-                             ELSE IF c.bsleep THEN "bsleep" ELSE "sleep"]>> }
+                             ELSE IF c.bsleep THEN "bsleep" ELSE "sleep"]>> : d \in EDurs }
     ELSE {}
 
 PollRetry(c, s) ==
